@@ -35,6 +35,11 @@ class GetEliminationOrder(Contract):
             return n.mem
         return old["bm_nodes"]
 
+    def havoc(self, ex, st, args):
+        from .common import havoc_graph
+        havoc_graph(args["self"].fields["bayesian_model"], "eo_bm")
+        havoc_graph(args["self"].fields["moralized_model"], "eo_mm", latents=False)
+
     def snapshot(self, ex, st, args):
         return {"bm_nodes": args["self"].fields["bayesian_model"].fields["@nodes"],
                 "nodes0": args["nodes"].mem if isinstance(args["nodes"], Coll) else None}
@@ -80,6 +85,7 @@ register(GetEliminationOrder())
 
 
 class VEGetEliminationOrder(Contract):
+    pure = True   # does not modify any pre-existing object
     """VariableElimination._get_elimination_order for an explicit order (all names in the model) and for None:
     an accepted explicit order covers exactly V - Q - keys(e); an order touching Q or the evidence, or not covering
     that set, is rejected with ValueError; None yields exactly that set."""
@@ -137,6 +143,7 @@ register(VEGetEliminationOrder())
 
 # --------------------------------------------------------------------------------------------------- query pruning
 class PruneBayesianModel(Contract):
+    pure = True   # does not modify any pre-existing object
     """Inference._prune_bayesian_model (every exact query on a Bayesian network starts here), graph part:
     D   = evidence variables + every node d-connected to a query variable given the evidence (d-connection = the relation of
           DAG.active_trail_nodes' contract, latents included),
